@@ -181,6 +181,35 @@ def printer_literals(p):
     return out
 
 
+def _path_literals(T, gl):
+    """the literal punctuation written on each consistent path of a printer: one boolean per condition, one arm per matched value"""
+    import itertools
+    bools, arms = [], {}
+    for conds, _, _ in T.entries:
+        for c, pol in conds:
+            if isinstance(c, tuple) and c[:1] == ("arm",) and len(c) == 3:
+                arms.setdefault(c[1], set()).add(c[2])
+            elif c not in bools:
+                bools.append(c)
+    if len(bools) > 6 or len(arms) > 3:
+        return None
+    out = []
+    arm_keys = sorted(arms, key=repr)
+    for bv in itertools.product((True, False), repeat=len(bools)):
+        for av in itertools.product(*[sorted(arms[k_]) + ["<other>"] for k_ in arm_keys]):
+            env_b, env_a = dict(zip(bools, bv)), dict(zip(arm_keys, av))
+            seq = []
+            for conds, _, pieces in T.entries:
+                if all((env_a.get(c[1]) == c[2]) == pol if (isinstance(c, tuple) and c[:1] == ("arm",) and len(c) == 3) else env_b.get(c) == pol for c, pol in conds):
+                    for x in pieces:
+                        if isinstance(x, str) and x.strip():
+                            x = x.strip()
+                            seq.extend([x] if x in gl else list(x) if all(ch in "(){}.,:-/" for ch in x) and x not in (":-",) else [x])
+            if seq not in out:
+                out.append(seq)
+    return out
+
+
 def subsequence(small, big):
     it = iter(big)
     return all(any(x == y for y in it) for x in small)
@@ -200,6 +229,12 @@ def rule_lists(ctx):
             # a piece like `}.` or `.` is split into single punctuation tokens
             flat.extend([x] if x in gl else list(x) if all(ch in "(){}.,:-/" for ch in x) and x not in (":-",) else [x])
         ok = subsequence(flat, gl) and flat == want
+        if not ok:
+            # alternative paths write alternative texts (an early `return write!(f, ".")`): the literal pieces are compared path by path -
+            # every path is a subsequence of the grammar's literals and the longest one is the expected list
+            seqs = _path_literals(printers.flat(fx, pb), gl)
+            if seqs:
+                ok = all(subsequence(sq, gl) for sq in seqs) and want in seqs and all(len(sq) <= len(want) for sq in seqs)
         ctx.add("LIST", ty, ok, ctx.site(pb), "literal pieces of the %s printer %s occur in grammar rule `%s` in order (grammar literals %s)" % (ty, flat, rule, gl), construct={"printer": flat, "grammar": gl})
     # program: one rule per line, each rule ends with `.`
     pb = printers.display_impl(fx, "asp", "Program")
@@ -208,27 +243,42 @@ def rule_lists(ctx):
     ctx.add("LIST", "Program", ok, ctx.site(pb), "a program is printed as its rules in order, one per line")
     rb = printers.display_impl(fx, "asp", "Rule")
     rp = printers.evaluate(fx, rb)
-    conds = [c for c, l, item in rp.out if item[0] == "write" and item[1] == " :- "]
-    ref = ((("bin", "Or", ("bin", "Eq", ("place", "self.0.head"), ("ctor", "Head::Falsity", ())), ("op", "Not", ("call", "Vec::is_empty", (("place", "self.0.body.formulas"),)))), True),)
-    # compared as a function of its two atomic conditions (`==` / `matches!`, `||` / nested ifs, destructured or not)
+    # what is written for a rule, as text, by whether the head is empty and whether the body is (an empty body prints nothing): `head.`,
+    # `head :- body.`, ` :- body.` - whichever way the test is written (`||`, De Morgan, a guard clause with an early `.`)
     from .. import leaves as _lv
+    RT = printers.flat(fx, rb)
+    HEAD_, BODY_ = _lv.norm(("place", "self.0.head")), _lv.norm(("place", "self.0.body"))
+    EMPTY_ = ("call", "Vec::is_empty", (_lv.norm(("place", "self.0.body.formulas")),))
+    hole_h, hole_b = ("hole", "{}", ("ctor", "Format", (("0", HEAD_),))), ("hole", "{}", ("ctor", "Format", (("0", BODY_),)))
 
-    def when(cs):
-        out = [((), ("lit", True))]
-        for c_ in cs:
-            nxt = []
-            for ts_, _ in out:
-                for ts2, v2 in _lv.bool_leaves(c_[0], ts_):
-                    if v2 == ("lit", c_[1]):
-                        nxt.append((tuple(ts2), ("lit", True)))
-            out = nxt
-        return out
-    okr = len(conds) == 1
-    if okr:
+    def rule_text(falsity, empty):
+        head_v = ("ctor", "Head::Falsity", ()) if falsity else ("ctor", "Head::Basic", (("0", ("param", "$a")),))
+
+        def lit_eq(t):
+            if not isinstance(t, tuple):
+                return t
+            t = tuple(lit_eq(x) for x in t)
+            if t[:1] == ("bin",) and t[1] in ("Eq", "Ne") and all(isinstance(x, tuple) and x[:1] == ("ctor",) for x in t[2:4]):
+                return ("lit", (t[2][1] == t[3][1]) == (t[1] == "Eq"))
+            return t
+
+        def decide(c):
+            return sym.decide_bool(lit_eq(_lv.replace(c, {HEAD_: head_v, EMPTY_: ("lit", empty)})))
         try:
-            okr = _lv.same_decision(when(conds[0]), when(ref[0] if False else ref))[0]
-        except Exception:
-            okr = conds == [ref]
+            segs = RT.under(decide)
+        except printers.Undecided:
+            return None
+        pieces = [p_ for _, ps in segs for p_ in ps if not (empty and p_ == hole_b)]
+        out = []
+        for p_ in pieces:
+            if isinstance(p_, str) and out and isinstance(out[-1], str):
+                out[-1] += p_
+            else:
+                out.append(p_)
+        return out
+    want_text = {(True, True): [hole_h, " :- ."], (True, False): [hole_h, " :- ", hole_b, "."], (False, True): [hole_h, "."], (False, False): [hole_h, " :- ", hole_b, "."]}
+    got_text = {k_: rule_text(*k_) for k_ in want_text}
+    okr = got_text == want_text
     ctx.add("LIST", "Rule:separator", okr, ctx.site(rb), "` :- ` is printed iff the head is empty or the body is not (a fact is `head.`, a constraint `:- body.`)")
     bb = printers.display_impl(fx, "asp", "Body")
     bp = printers.evaluate(fx, bb)
